@@ -7,7 +7,7 @@ from c28_impl import LIST_OPS, DICT_OPS, PYNAME, plain_step, navigate
 
 ID = 'C28'
 LEVEL = 'proof'
-PROPS = ['Props/C28.v']
+PROPS = ['Props/C28.v', 'Findings/C28.v']
 GEN = [('Gen/Mutators.v', c28_scan.generate)]
 TRUSTED = [
     'tools/c28_scan.py: the mutator names of list / dict are derived from the running CPython (every name of dir() is called on samples), the wrapped '
@@ -626,6 +626,34 @@ def search(ctx, deep):
                     record(Failure('read-dirties:%s.%s' % (tname, name), 'reading through %s.%s marks the object modified (status %s) or changes the value' % (tname, name, status),
                                    {'kind': 'json', 'doc': doc, 'ops': ops, 'check': 'read'}))
 
+    # (e) typed arrays: every mutator validates its items (a wrong-typed item raises TypeError and changes nothing), right-typed items are persisted
+    dist['typed_array_cases'] = 0
+    for akind, doc, good, bads in (('array', [1, 2], 7, ['x', 2.5, None, [1]]), ('sarray', ['a', 'b'], 'z', [1, 2.5, None, ['a']]), ('farray', [1.5, 2.0], 3.25, ['x', None, [1.0]])):
+        for meth in ('append', 'insert', 'extend', 'extend_iter', 'setitem', 'iadd', 'attr_iadd'):
+            for item in [good] + bads:
+                try: r = c28_impl.typed_array_case(akind, doc, meth, item)
+                except Exception as e:
+                    record(Failure('crash:typed-array', 'typed array case crashed: %s: %s' % (type(e).__name__, e), {'typed': True, 'kind': akind, 'doc': doc, 'method': meth, 'item': item})); continue
+                evals += 1; dist['typed_array_cases'] += 1
+                data = {'typed': True, 'kind': akind, 'doc': doc, 'method': meth, 'item': item}
+                if item is good:
+                    nontriv.add(json.dumps(['typed', akind, meth]))
+                    if r['err'] or r['seen'] != r['reloaded'] or good not in r['reloaded']:
+                        record(Failure('typed-array:valid-item-lost:%s.%s' % (akind, meth), '%s value %r, %s(%r): error %r, the program sees %r, a fresh session reloads %r' % (akind, doc, meth, item, r['err'], r['seen'], r['reloaded']), data))
+                elif r['err'] != 'TypeError' or r['seen'] != doc or r['reloaded'] != doc:
+                    record(Failure('typed-array:item-not-validated:%s.%s' % (akind, meth), '%s value %r, %s(%r) must raise TypeError and change nothing: error %r, the program sees %r, a fresh session reloads %r' % (akind, doc, meth, item, r['err'], r['seen'], r['reloaded']), data))
+    # (f) a value assigned through the Json wrapper
+    for path, m_, a_ in (([], 'dsetitem', ['n', 1]), (['k'], 'append', [3]), (['d', 'x'], 'extend', [True, [[1]]])):
+        wdoc = {'k': [1, 2], 'd': {'x': []}}
+        try: r = c28_impl.json_wrapper_case(wdoc, path, m_, a_)
+        except Exception as e:
+            record(Failure('crash:json-wrapper', 'Json wrapper case crashed: %s: %s' % (type(e).__name__, e), {'wrapper': True, 'doc': wdoc, 'path': path, 'm': m_, 'a': a_})); continue
+        evals += 1
+        nontriv.add(json.dumps(['wrapper', path, m_]))
+        if r['seen'] != r['reloaded']:
+            record(Failure('json-wrapper-value-untracked', 'obj.j = Json(%r); commit(); in-place %s at %r: the program sees %r, a fresh session reloads %r (the attribute value is the Json wrapper itself: %s)'
+                           % (wdoc, m_, path, r['seen'], r['reloaded'], r['wrapper']), {'wrapper': True, 'doc': wdoc, 'path': path, 'm': m_, 'a': a_}))
+
     # (d) several owners: store a container read from another owner, write, change it in place through the new owner
     def wcheck(docs, ops):
         try: return c28_impl.run_wproperty(docs, ops)
@@ -680,6 +708,13 @@ def search(ctx, deep):
 
 def replay(ctx, data):
     load_tables()
+    if data.get('wrapper'):
+        r = c28_impl.json_wrapper_case(data['doc'], data['path'], data['m'], data['a'])
+        return Failure('json-wrapper-value-untracked', 'Json wrapper value: the program sees %r, a fresh session reloads %r' % (r['seen'], r['reloaded']), data) if r['seen'] != r['reloaded'] else None
+    if data.get('typed'):
+        r = c28_impl.typed_array_case(data['kind'], data['doc'], data['method'], data['item'])
+        bad = (r['err'] != 'TypeError' or r['seen'] != data['doc'] or r['reloaded'] != data['doc'])
+        return Failure('typed-array', 'typed array: %r' % (r,), data) if bad else None
     if data.get('world'):
         res = c28_impl.run_wproperty(data['docs'], data['ops'])
         if res['lost'] or res['foreign']:
@@ -704,7 +739,9 @@ LEVEL_TEXT = ('Machine-checked proof (Coq 8.16.1) over a model of Pony\'s tracke
               'mutators (every mutating method and operator of CPython\'s list and dict, any iterable argument), reads, commits and re-loads, every reachable container stays a '
               'Tracked* instance of the same owner, every mutator that returns sets the write bit, reads change nothing, and the row after commit equals the value the program '
               'sees -- unconditionally since fix f0ecc86 (+=, *=, |= and non-list iterables). The table of wrapped methods and the list of CPython mutators are regenerated from '
-              'ormtypes.py and the running interpreter on every run; the coverage theorems are computed over them.')
+              'ormtypes.py and the running interpreter on every run; the coverage theorems are computed over them. Several owners (objects x Json attributes) with values stored from one into '
+              'another keep every container bound to exactly its own owner. Typed arrays (Int / Str / Float) validate items on every mutator (search). One deviation is recorded: a value '
+              'assigned through the Json wrapper is not tracked (proposed repair).')
 LEVEL_NOTE = ('Trusted: Coq kernel + vm_compute; the ast scan of ormtypes.py; the hand-written model, tied to real Pony on SQLite by whole-trace vm_compute comparison '
               '(tracking tag of every container, write bit, stored text). Not modelled: floats / tuples, extended slices, sort(key=), handles to detached containers; '
               'other providers than SQLite.')
